@@ -220,6 +220,12 @@ func (c *Channel) JoinPresence(ctx context.Context, p stanza.Presence, opt ...Op
 	}
 	c.client.managed[c.addr.String()] = c
 	c.client.managedM.Unlock()
+	// A departure notification that nobody waited for (we were removed from the
+	// room) must not end a later Leave early.
+	select {
+	case <-c.depart:
+	default:
+	}
 
 	ctx, cancel := context.WithCancel(ctx)
 	defer cancel()
